@@ -349,7 +349,7 @@ func checkC15(p *Prog, r *Report) {
 		for _, b := range f.Blocks {
 			/* Back edges: a successor which dominates the block. */
 			for _, s := range b.Succs {
-				if s.Dominates(b) && !strings.HasPrefix(s.Comment, "rangeindex.loop") && !strings.HasPrefix(s.Comment, "rangeint.loop") && !isShrinkingLoop(p, s) {
+				if s.Dominates(b) && !strings.HasPrefix(s.Comment, "rangeindex.loop") && !strings.HasPrefix(s.Comment, "rangeint.loop") && !isShrinkingLoop(p, s) && !isCountingLoop(s) {
 					if len(b.Instrs) > 0 {
 						fail("loop@"+s.Comment, b.Instrs[len(b.Instrs)-1], "a loop which is not a range over a slice, array or integer (%s): termination is not evident from its shape", s.Comment)
 					}
@@ -1114,4 +1114,108 @@ func nonEmptySeparator(p *Prog, v ssa.Value) bool {
 		scan(fn)
 	}
 	return 1 == n && good
+}
+
+// isCountingLoop: the loop headed by h is left when a quantity which every
+// trip round strictly increases reaches a bound which the loop does not
+// change: "for i := a; i < n; i += k" with constant k > 0, or "for len(x) < n
+// { x = append(x, …) }".  It terminates.
+func isCountingLoop(h *ssa.BasicBlock) bool {
+	ifi := blockIf(h)
+	if nil == ifi || 2 != len(h.Succs) {
+		return false
+	}
+	bo, ok := ifi.Cond.(*ssa.BinOp)
+	if !ok {
+		return false
+	}
+	x, y, op := bo.X, bo.Y, bo.Op
+	/* Counter on the left. */
+	switch op {
+	case token.GTR:
+		x, y, op = y, x, token.LSS
+	case token.GEQ:
+		x, y, op = y, x, token.LEQ
+	}
+	if token.LSS != op && token.LEQ != op {
+		return false
+	}
+	/* Continue over the true edge, leave over the false one. */
+	inLoop := func(b *ssa.BasicBlock) bool {
+		if !h.Dominates(b) {
+			return false
+		}
+		return b == h || nil != (reachQ{From: Loc{b, -1, nil}, Target: func(j ssa.Instruction) bool { return j.Block() == h }}).run()
+	}
+	if !inLoop(h.Succs[0]) || inLoop(h.Succs[1]) {
+		return false
+	}
+	/* The bound does not change in the loop. */
+	outside := func(v ssa.Value) bool {
+		switch b := v.(type) {
+		case *ssa.Const, *ssa.Parameter, *ssa.FreeVar:
+			return true
+		case ssa.Instruction:
+			return !inLoop(b.Block())
+		}
+		return false
+	}
+	if c, isCall := y.(*ssa.Call); isCall {
+		/* The length of a slice value made before the loop (slice values
+		are immutable: the loop cannot change it). */
+		bi, isB := c.Common().Value.(*ssa.Builtin)
+		if !isB || "len" != bi.Name() || !outside(c.Common().Args[0]) {
+			return false
+		}
+	} else if !outside(y) {
+		return false
+	}
+	back := func(ph *ssa.Phi, good func(e ssa.Value) bool) bool {
+		n := 0
+		for k, e := range ph.Edges {
+			if !h.Dominates(h.Preds[k]) {
+				continue /* way in */
+			}
+			n++
+			if !good(e) {
+				return false
+			}
+		}
+		return n > 0
+	}
+	/* i < n with i stepped by a positive constant on every way round. */
+	if ph, isPhi := x.(*ssa.Phi); isPhi && ph.Block() == h {
+		return back(ph, func(e ssa.Value) bool {
+			add, ok := e.(*ssa.BinOp)
+			if !ok || token.ADD != add.Op || add.X != ssa.Value(ph) {
+				return false
+			}
+			k, isC := constInt(add.Y)
+			return isC && k > 0
+		})
+	}
+	/* len(x) < n with x extended on every way round. */
+	if lc, isCall := x.(*ssa.Call); isCall && lc.Block() == h {
+		bi, isB := lc.Common().Value.(*ssa.Builtin)
+		if !isB || "len" != bi.Name() {
+			return false
+		}
+		ph, isPhi := lc.Common().Args[0].(*ssa.Phi)
+		if !isPhi || ph.Block() != h {
+			return false
+		}
+		return back(ph, func(e ssa.Value) bool {
+			app, ok := e.(*ssa.Call)
+			if !ok {
+				return false
+			}
+			ab, isB := app.Common().Value.(*ssa.Builtin)
+			if !isB || "append" != ab.Name() || app.Common().Args[0] != ssa.Value(ph) {
+				return false
+			}
+			/* At least one element is added. */
+			return len(variadicElems(app.Common())) >= 1
+		})
+	}
+	return false
 }
